@@ -35,6 +35,7 @@ import (
 	"github.com/lindb/lindb/constants"
 	"github.com/lindb/lindb/flow"
 	"github.com/lindb/lindb/kv"
+	"github.com/lindb/lindb/kv/version"
 	"github.com/lindb/lindb/metrics"
 	"github.com/lindb/lindb/models"
 	"github.com/lindb/lindb/pkg/timeutil"
@@ -288,7 +289,17 @@ func (f *dataFamily) Flush() error {
 		f.immutableSeq = immutableSeq
 		f.mutex.Unlock()
 
-		if err := f.flushMemoryDatabase(immutableSeq, waitingFlushMemDB); err != nil {
+		if err := f.flushMemoryDatabase(immutableSeq, waitingFlushMemDB, func(commitFn func() error) error {
+			// commit new file and remove flushed memory database in one step for readers(ref: Filter),
+			// if not, a query reads the same data from the memory database and from the file.
+			f.mutex.Lock()
+			defer f.mutex.Unlock()
+			if err := commitFn(); err != nil {
+				return err
+			}
+			f.immutableMemDB = nil
+			return nil
+		}); err != nil {
 			return err
 		}
 
@@ -396,11 +407,17 @@ func (f *dataFamily) Filter(executeCtx *flow.ShardExecuteContext) (resultSet []f
 	f.lastReadTime.Store(fasttime.UnixMilliseconds())
 	// the series/fields may be in memory only(written after last flush) or in files only,
 	// a source without them must not hide the data of the others.
+	// NOTE: memory databases and snapshot of files must be got in one step under family's lock,
+	// flush commits new file and removes the flushed memory database under the same lock.
+	f.mutex.Lock()
 	memRS, memErr := f.memoryFilter(executeCtx)
+	snapShot := f.family.GetSnapshot()
+	f.mutex.Unlock()
 	if memErr != nil && !errors.Is(memErr, constants.ErrNotFound) {
+		snapShot.Close()
 		return nil, memErr
 	}
-	fileRS, fileErr := f.fileFilter(executeCtx)
+	fileRS, fileErr := f.fileFilter(executeCtx, snapShot)
 	if fileErr != nil && !errors.Is(fileErr, constants.ErrNotFound) {
 		return nil, fileErr
 	}
@@ -461,6 +478,7 @@ func (f *dataFamily) GetState() models.DataFamilyState {
 	return state
 }
 
+// memoryFilter filters the data of memory databases, family's lock must be held.
 func (f *dataFamily) memoryFilter(shardExecuteContext *flow.ShardExecuteContext) (resultSet []flow.FilterResultSet, err error) {
 	var notFound error
 	memFilter := func(memDB memdb.MemoryDatabase) error {
@@ -476,8 +494,6 @@ func (f *dataFamily) memoryFilter(shardExecuteContext *flow.ShardExecuteContext)
 		resultSet = append(resultSet, rs...)
 		return nil
 	}
-	f.mutex.Lock()
-	defer f.mutex.Unlock()
 	if f.mutableMemDB != nil {
 		if err := memFilter(f.mutableMemDB); err != nil {
 			return nil, err
@@ -494,8 +510,9 @@ func (f *dataFamily) memoryFilter(shardExecuteContext *flow.ShardExecuteContext)
 	return
 }
 
-func (f *dataFamily) fileFilter(shardExecuteContext *flow.ShardExecuteContext) (resultSet []flow.FilterResultSet, err error) {
-	snapShot := f.family.GetSnapshot()
+func (f *dataFamily) fileFilter(shardExecuteContext *flow.ShardExecuteContext,
+	snapShot version.Snapshot,
+) (resultSet []flow.FilterResultSet, err error) {
 	defer func() {
 		if err != nil || len(resultSet) == 0 {
 			// if not find metrics data or has error, close snapshot directly
@@ -640,8 +657,15 @@ func (f *dataFamily) Close() error {
 
 	f.flushCondition.Wait()
 
+	// NOTE: family's lock is held, readers cannot see the memory database and its file at the same time
 	if f.immutableMemDB != nil {
-		if err := f.flushMemoryDatabase(f.immutableSeq, f.immutableMemDB); err != nil {
+		if err := f.flushMemoryDatabase(f.immutableSeq, f.immutableMemDB, func(commitFn func() error) error {
+			if err := commitFn(); err != nil {
+				return err
+			}
+			f.immutableMemDB = nil
+			return nil
+		}); err != nil {
 			return err
 		}
 	}
@@ -650,7 +674,13 @@ func (f *dataFamily) Close() error {
 		for leader, seq := range f.seq {
 			sequences[leader] = seq.Load()
 		}
-		if err := f.flushMemoryDatabase(sequences, f.mutableMemDB); err != nil {
+		if err := f.flushMemoryDatabase(sequences, f.mutableMemDB, func(commitFn func() error) error {
+			if err := commitFn(); err != nil {
+				return err
+			}
+			f.mutableMemDB = nil
+			return nil
+		}); err != nil {
 			return err
 		}
 	}
@@ -662,8 +692,22 @@ func (f *dataFamily) Close() error {
 	return nil
 }
 
-// flushMemoryDatabase flushes memory database to disk.
-func (f *dataFamily) flushMemoryDatabase(sequences map[int32]int64, memDB memdb.MemoryDatabase) error {
+// committingFlusher commits the family's files through the commit function of data family.
+type committingFlusher struct {
+	kv.Flusher
+	commit func(commitFn func() error) error
+}
+
+// Commit flushes data and commits metadata.
+func (cf *committingFlusher) Commit() error {
+	return cf.commit(cf.Flusher.Commit)
+}
+
+// flushMemoryDatabase flushes memory database to disk,
+// commit invokes the commit function of files, then removes the memory database from readers.
+func (f *dataFamily) flushMemoryDatabase(sequences map[int32]int64, memDB memdb.MemoryDatabase,
+	commit func(commitFn func() error) error,
+) error {
 	startTime := time.Now()
 	flusher := f.family.NewFlusher()
 	defer func() {
@@ -675,7 +719,7 @@ func (f *dataFamily) flushMemoryDatabase(sequences map[int32]int64, memDB memdb.
 		flusher.Sequence(leader, seq)
 	}
 
-	dataFlusher, err := newMetricDataFlusher(flusher)
+	dataFlusher, err := newMetricDataFlusher(&committingFlusher{Flusher: flusher, commit: commit})
 	if err != nil {
 		return err
 	}
